@@ -221,8 +221,8 @@ theorem itemsOf_cons (x : SerMsg × Nat) (l : List (SerMsg × Nat)) : itemsOf (x
 structure OInv (n : Net) : Prop where
   pre : n.recvd <+: n.sent
   full : n.targetUp = true → n.linkUp = true → n.recvd ++ n.inflight = n.sent
-  dead : n.linkUp = false →
-    n.fwd.contents = [] ∧ n.mbox = [] ∧ n.back.contents = [] ∧ n.handles = []
+  /-- after A's side went down the frames still travelling are the next ones B will receive -/
+  chain : n.linkUp = false → n.targetUp = true → n.recvd ++ n.fwd.contents.map (·.item) <+: n.sent
 
 theorem contents_replicate {α : Type} (k : Nat) : Pipe.contents (List.replicate k ([] : List α)) = [] := by
   induction k with
@@ -230,9 +230,10 @@ theorem contents_replicate {α : Type} (k : Nat) : Pipe.contents (List.replicate
   | succ k ih => simp [List.replicate_succ, Pipe.contents, ih]
 
 theorem oinv_init (k k' : Nat) : OInv (Net.init k k') := by
-  refine ⟨by simp [Net.init], ?_, by simp [Net.init]⟩
-  intro _ _
-  simp [Net.init, Net.inflight, Net.mboxItems, itemsOf, contents_replicate]
+  refine ⟨by simp [Net.init], ?_, ?_⟩
+  · intro _ _
+    simp [Net.init, Net.inflight, Net.mboxItems, itemsOf, contents_replicate]
+  · intro h; simp [Net.init] at h
 
 /-- frames the proxy emits for one mailbox message are exactly that message's item -/
 theorem frames_of_handle (p : Proxy) (closed : Nat → Bool) (m : SerMsg) (sender : Nat) :
@@ -241,6 +242,16 @@ theorem frames_of_handle (p : Proxy) (closed : Nat → Bool) (m : SerMsg) (sende
   cases m with
   | call port payload => simp [Proxy.handle, Frame.ofOut]
   | cast payload => simp [Proxy.handle, Frame.ofOut]
+  | reply tag data g =>
+    simp only [Proxy.handle]
+    split <;> (try split) <;> simp [Frame.ofOut]
+
+/-- a proxy whose session is gone hands nothing to it -/
+theorem frames_of_handle_down (p : Proxy) (closed : Nat → Bool) (m : SerMsg) (sender port : Nat) :
+    (p.handle closed false m).2.filterMap (Frame.ofOut sender port) = [] := by
+  cases m with
+  | call q payload => simp [Proxy.handle]
+  | cast payload => simp [Proxy.handle]
   | reply tag data g =>
     simp only [Proxy.handle]
     split <;> (try split) <;> simp [Frame.ofOut]
@@ -268,15 +279,19 @@ theorem OInv.step {n : Net} (op : Op) (h : OInv n) : OInv (n.step op) := by
       simp only [Net.inflight, Net.mboxItems] at this ⊢
       rw [itemsOf_append, itemsOf_call, ← this]
       simp
-    · exact ⟨h.pre, h.full, h.dead⟩
-  | abandon port => exact ⟨h.pre, h.full, h.dead⟩
+    · exact ⟨h.pre, h.full, h.chain⟩
+  | abandon port => exact ⟨h.pre, h.full, h.chain⟩
   | proxy =>
     simp only [Net.step]
     split
     · exact h
     · rename_i m sender rest hm
       cases hl : n.linkUp with
-      | false => have := (h.dead hl).2.1; rw [hm] at this; cases this
+      | false =>
+        rw [frames_of_handle_down]
+        refine ⟨h.pre, fun _ hl' => by simp [hl] at hl', ?_⟩
+        intro _ ht
+        simpa using h.chain hl ht
       | true =>
         refine ⟨h.pre, ?_, fun hd => by simp [hl] at hd⟩
         intro ht _
@@ -298,14 +313,26 @@ theorem OInv.step {n : Net} (op : Op) (h : OInv n) : OInv (n.step op) := by
         have := h.full ht hl
         simp only [Net.inflight, Net.mboxItems] at this ⊢
         rw [hs]; exact this
-      · intro hd
-        have := h.dead hd
+      · intro hd ht
+        have := h.chain hd ht
         simp only at this ⊢
         rw [hs]; exact this
     · rename_i f ho
       rw [ho] at hs
       cases hl : n.linkUp with
-      | false => have := (h.dead hl).1; rw [hs] at this; cases this
+      | false =>
+        split
+        · rename_i ht
+          have hc := h.chain hl ht
+          rw [hs, List.map_cons] at hc
+          have hc' : (n.recvd ++ [f.item]) ++ (n.fwd.move i).1.contents.map (·.item) <+: n.sent := by
+            simpa using hc
+          have hpre : n.recvd ++ [f.item] <+: n.sent := (List.prefix_append _ _).trans hc'
+          split
+          · exact ⟨hpre, fun _ hl' => by simp [hl] at hl', fun _ _ => hc'⟩
+          · exact ⟨hpre, fun _ hl' => by simp [hl] at hl', fun _ _ => hc'⟩
+        · rename_i ht
+          exact ⟨h.pre, fun ht' => absurd ht' ht, fun _ ht' => absurd ht' ht⟩
       | true =>
         split
         · rename_i ht
@@ -323,36 +350,16 @@ theorem OInv.step {n : Net} (op : Op) (h : OInv n) : OInv (n.step op) := by
     simp only [Net.step]
     split
     · exact h
-    · rename_i hd hfind
-      cases hl : n.linkUp with
-      | false =>
-        have := (h.dead hl).2.2.2
-        have hm := List.mem_of_find?_eq_some hfind
-        rw [this] at hm; cases hm
-      | true =>
-        exact ⟨h.pre, fun ht _ => h.full ht hl, fun hd => by simp [hl] at hd⟩
-  | drop hid =>
-    refine ⟨h.pre, h.full, ?_⟩
-    intro hd
-    have := h.dead hd
-    simp only [Net.step] at hd ⊢
-    refine ⟨this.1, this.2.1, this.2.2.1, ?_⟩
-    rw [this.2.2.2]; rfl
+    · exact ⟨h.pre, h.full, h.chain⟩
+  | drop hid => exact ⟨h.pre, h.full, h.chain⟩
   | moveB i =>
     simp only [Net.step]
     have hs := Pipe.move_spec i n.back
     split
-    · rename_i ho
-      rw [ho] at hs
-      refine ⟨h.pre, h.full, ?_⟩
-      intro hd
-      have := h.dead hd
-      simp only at this ⊢
-      rw [hs]; exact this
+    · exact ⟨h.pre, h.full, h.chain⟩
     · rename_i r ho
-      rw [ho] at hs
       cases hl : n.linkUp with
-      | false => have := (h.dead hl).2.2.1; rw [hs] at this; cases this
+      | false => exact ⟨h.pre, fun _ hl' => by simp [hl] at hl', fun _ ht => h.chain hl ht⟩
       | true =>
         refine ⟨h.pre, ?_, fun hd => by simp [hl] at hd⟩
         intro ht _
@@ -361,14 +368,21 @@ theorem OInv.step {n : Net} (op : Op) (h : OInv n) : OInv (n.step op) := by
         rw [itemsOf_append, itemsOf_reply, ← this]
         simp
   | targetExit =>
-    refine ⟨h.pre, fun ht => by simp [Net.step] at ht, ?_⟩
-    intro hd
-    have := h.dead hd
-    exact ⟨this.1, this.2.1, this.2.2.1, rfl⟩
+    exact ⟨h.pre, fun ht => by simp [Net.step] at ht, fun _ ht => by simp [Net.step] at ht⟩
   | cut =>
     refine ⟨h.pre, fun _ hl => by simp [Net.step] at hl, ?_⟩
-    intro _
-    simp [Net.step, Pipe.contents_clear]
+    intro _ _
+    simpa [Net.step, Pipe.contents_clear] using h.pre
+  | loseA =>
+    refine ⟨h.pre, fun _ hl => by simp [Net.step] at hl, ?_⟩
+    intro _ ht
+    simp only [Net.step] at ht ⊢
+    cases hl : n.linkUp with
+    | false => exact h.chain hl ht
+    | true =>
+      have := h.full ht hl
+      simp only [Net.inflight] at this
+      exact ⟨n.mboxItems, by rw [← this]; simp⟩
 
 theorem OInv.run {n : Net} (ops : List Op) (h : OInv n) : OInv (n.run ops) := by
   induction ops generalizing n with
@@ -598,6 +612,10 @@ theorem NInv.step {n : Net} (op : Op) (h : NInv n) : NInv (n.step op) := by
     refine ⟨⟨by simp [Net.step], by simp [Net.step]⟩, h.asgSorted, h.asgLe, by simp [Net.step], ?_, by simp [Net.step], ?_, by simp [Net.step], h.deliv⟩
     · simp [Net.step, Pipe.contents_clear]
     · simp [Net.step, Pipe.contents_clear]
+  | loseA =>
+    refine ⟨⟨by simp [Net.step], by simp [Net.step]⟩, h.asgSorted, h.asgLe, by simp [Net.step], h.frames, h.handles, ?_,
+      by simp [Net.step], h.deliv⟩
+    simp [Net.step, Pipe.contents_clear]
 
 theorem NInv.run {n : Net} (ops : List Op) (h : NInv n) : NInv (n.run ops) := by
   induction ops generalizing n with
@@ -800,6 +818,16 @@ theorem UInv.step {n : Net} (op : Op) (h : UInv n) : UInv (n.step op) := by
         simpa [Net.portCount, callPorts, List.filterMap_append] using this
   | targetExit => exact same _ rfl rfl rfl rfl
   | cut =>
+    refine ⟨⟨by simp [Net.step], by simp [Net.step]⟩, ?_, ?_⟩
+    · intro q
+      have := h.once q
+      simp only [Net.step, Net.portCount, callPorts, List.map_nil, List.count_nil, List.filterMap_nil] at this ⊢
+      omega
+    · intro q hq
+      have := h.fresh q hq
+      simp only [Net.step, Net.portCount, callPorts, List.map_nil, List.count_nil, List.filterMap_nil] at this ⊢
+      omega
+  | loseA =>
     refine ⟨⟨by simp [Net.step], by simp [Net.step]⟩, ?_, ?_⟩
     · intro q
       have := h.once q
